@@ -407,6 +407,12 @@ def r5_entry_api(ctx):
                 if nm == "insert":
                     return Sym("cell:inserted")
                 return TOP
+            if k == "core::mem::replace" and isinstance(a0, Sym) and a0.tag == "cell:existing" and len(args_) > 1:
+                # `mem::replace(occupied.get_mut(), new)` is `occupied.insert(new)`: the new cell in, the old one out
+                if log and log[-1] == ("occupied.get_mut", None):
+                    log.pop()
+                log.append(("occupied.insert", load(interp, env, args_[1])))
+                return Sym("cell:existing")
             if k in ("core::cell::RefCell::new",):
                 return Agg("adt", "cell", None, [a0])
             if k in ("alloc::boxed::Box::new",):
